@@ -75,6 +75,8 @@ pub fn run(args: &[String]) -> i32 {
             timed: v["req"]["timed"] == true,
             ev_paths: vec![],
             late: v["req"]["late"] == true,
+            dv_filters: vec![],
+            ev_min: None,
         };
         let o = crate::util::catch(|| run_request(&spec, &acl, pase, &req, 400));
         match o {
